@@ -2039,7 +2039,11 @@ public:
     SBEPP_CPP14_CONSTEXPR random_access_iterator&
         operator+=(difference_type n) noexcept
     {
-        ptr += n * block_length;
+        // `n * block_length` would be evaluated in the promoted type of a
+        // (signed) size type and an (unsigned) block length type, which
+        // overflows or wraps for negative `n` and for large products
+        ptr += static_cast<std::ptrdiff_t>(n)
+               * static_cast<std::ptrdiff_t>(block_length);
         index += n;
         return *this;
     }
